@@ -72,7 +72,9 @@ func acrhApproved(allowedSorted []string, lines []string) bool {
 }
 
 var c14NamePool = []string{"a", "ab", "abc", "b", "x-a", "x-ab", "x-abc", "x-b", "foo", "foo-bar", "x-foo", "authorization", "content-type", "zzzzzzzzzzzzzzzzzzzz",
-	"x", "accept", "x-requested-with", "a-", "a-b", "a0", "a!", "b~"}
+	"x", "accept", "x-requested-with", "a-", "a-b", "a0", "a!", "b~",
+	"x-trace-id", "x-request-id", "x-api-key", "x-csrf-token", "if-none-match", "if-match", "range", "x-a-b", "x-aa", "x-ab-c", "x-b-a", "x-c", "x-d", "x-e", "x-f", "x-g", "x-h", "x-i",
+	"x-j", "x-k", "x-l", "x-m", "x-n", "x-o", "x-p", "x-q", "x-r", "x-s", "x-t", "x-u", "x-v", "x-w", "x-x", "x-y", "x-z", "y", "y-a", "z", "z-a", "accept-language", "content-language"}
 
 func normNames(names []Str) []string {
 	set := map[string]bool{}
@@ -106,7 +108,8 @@ func genOWS1(t *rapid.T, label string) string {
 
 func c14Gen(t *rapid.T) C14Case {
 	var c C14Case
-	n := intIn(t, "nnames", 1, 8)
+	n := pick(t, "nnamesmax", []int{2, 4, 8, 8, 12, 20, 40})
+	n = intIn(t, "nnames", 1, n)
 	for i := 0; i < n; i++ {
 		nm := pick(t, "name", c14NamePool)
 		if chance(t, "case", 30) {
@@ -325,7 +328,7 @@ func c14Check(c C14Case, rec *Recorder) *Disc {
 
 func c14Prop() Prop[C14Case] {
 	return Prop[C14Case]{ID: "C14", Gen: c14Gen, Check: c14Check,
-		Rule: "generator: allowed-name sets of 1-8 names (prefixes/extensions of each other, mixed case in the configuration) x 0-4 ACRH field lines: 55% an increasing walk over the allowed names with <=1 OWS per side and <=14 empty elements, " +
+		Rule: "generator: allowed-name sets of 1-40 names (prefixes/extensions of each other, mixed case in the configuration) x 0-4 ACRH field lines: 55% an increasing walk over the allowed names with <=1 OWS per side and <=14 empty elements, " +
 			"of which 45% get exactly one boundary mutation (17th / 16th empty element, 2 OWS on one side, 3-byte whitespace element, duplicate, swapped neighbours, element one byte over the longest name, upper case, one arbitrary byte 0x00-0xFF glued to an edge of an element); 45% free-form elements " +
 			"(allowed names unsorted/repeated, prefix/extension/upper-case variants, runs of 0-20 empties, elements of length maxNameLen-1..+4 of name bytes or OWS, junk over {a b x - , SP HTAB NUL}) each with 0-3 OWS per side. " +
 			"Oracle: debug-off preflight approved (204 + ACAH echo) iff the reference list reader approves; browser-shaped sublists (joined, one per line, comma-space) always approved. " +
